@@ -28,3 +28,30 @@ fn c06_event_parent_resolution_bounded() {
     assert!(got == want, "C06.event_span.contextual_is_current_span_explicit_parent_or_root_overrides");
     assert!(cx.lookup_current().map(|s| s.id().into_u64()) == if root.current == 0 { None } else { Some(root.current) }, "C06.lookup_current.is_the_collectors_current_span");
 }
+
+// ---------- Registry::new_span's parent resolution: the `let parent = ...;` statement is extracted from the real function
+// on every run (generator gen_parent_resolution, appended below this file) and run over a recording stand-in for the two
+// registry operations it uses.
+struct VReg { current: u64, clones: core::cell::Cell<u32>, cloned: core::cell::Cell<u64> }
+impl VParentOps for VReg {
+    fn current_span(&self) -> tracing_core::span::Current {
+        if self.current == 0 { tracing_core::span::Current::none() } else { tracing_core::span::Current::new(vspan::Id::from_u64(self.current), &VMETA_SPAN) }
+    }
+    fn clone_span(&self, id: &vspan::Id) -> vspan::Id { self.clones.set(self.clones.get() + 1); self.cloned.set(id.into_u64()); id.clone() }
+}
+#[kani::proof]
+#[kani::unwind(4)]
+#[kani::stub(core::fmt::Formatter::pad, pad_stub)]
+fn c06_new_span_parent_is_root_contextual_or_explicit() {
+    let reg = VReg { current: nd(), clones: core::cell::Cell::new(0), cloned: core::cell::Cell::new(0) };
+    let vs = VMETA_SPAN.fields().value_set(&[]);
+    let mode: u8 = nd(); kani::assume(mode < 3);
+    let explicit: u64 = nd(); kani::assume(explicit >= 1);
+    let attrs = match mode { 0 => vspan::Attributes::new(&VMETA_SPAN, &vs), 1 => vspan::Attributes::new_root(&VMETA_SPAN, &vs), _ => vspan::Attributes::child_of(vspan::Id::from_u64(explicit), &VMETA_SPAN, &vs) };
+    let got = __extracted_resolve_parent(&reg, &attrs).map(|id| id.into_u64());
+    let want = match mode { 0 => if reg.current == 0 { None } else { Some(reg.current) }, 1 => None, _ => Some(explicit) };
+    assert!(got == want, "C06.new_span.parent_is_current_span_unless_explicit_parent_or_explicit_root");
+    // a reference is taken on the chosen parent (so its data outlives the child), exactly once, and on nothing else
+    assert!(reg.clones.get() == want.is_some() as u32 && (want.is_none() || reg.cloned.get() == want.unwrap()), "C06.new_span.takes_exactly_one_reference_on_the_chosen_parent");
+    kani::cover!(mode == 1 && reg.current != 0, "C06.reachable.explicit_root_while_a_span_is_current");
+}
